@@ -6,7 +6,7 @@
    and braces-delimited inline tables alike. *)
 From TV Require Import Base.Prelude Base.Utf8 Base.Winnow Gen.Consts Spec.Abnf Spec.Lex Spec.Defs Spec.Syntax.
 From TV Require Import Model.Trivia Model.Strings Model.Datetime Model.Numbers Model.Tree Model.Parse Model.Document.
-From TV Require Import Proofs.NoPanicBase Proofs.NoPanicLex Proofs.NoPanicValue.
+From TV Require Import Proofs.Eoi Proofs.NoPanicBase Proofs.NoPanicLex Proofs.NoPanicValue.
 From TV Require Import Proofs.LexEquivBase Proofs.LexEquivStrings.
 From TV Require Import Proofs.GrammarBase Proofs.GrammarValueBase Proofs.GrammarValueSound Proofs.GrammarValueComplete.
 From TV Require Import Proofs.SpansExact.
@@ -39,7 +39,7 @@ Theorem key_reparse_text i rw k i' :
             /\ parse_key t = POk (raw_with_span (0, N.of_nat (length t))%N, k).
 Proof.
   intro E. apply simple_key_prefix_closed in E as (t & R & P & C). exists t. repeat split; auto.
-  unfold parse_key, parse_all, bind. rewrite C. reflexivity.
+  unfold parse_key. rewrite parse_all_eoi_unfold, C. reflexivity.
 Qed.
 
 (* with the cursor inside a source text s: the repr of the key is (a, b) and slicing s there re-parses to the key *)
@@ -103,7 +103,7 @@ Proof.
   - apply vfollow_nil.
   - exact Hok.
   - cbn [new_input depth]. eapply within_le; [|exact Hwi]. lia.
-  - exists v'. split; [|congruence]. unfold parse_value_raw, parse_all, bind. rewrite C, adv_all. reflexivity.
+  - exists v'. split; [|congruence]. unfold parse_value_raw. rewrite parse_all_eoi_unfold, C, adv_all. reflexivity.
 Qed.
 
 Theorem value_reparse s i v i' :
